@@ -359,6 +359,80 @@ def shard_rules(seed, idx, n):
     return res
 
 
+def gen_xrules(rng, names, fitting=()):
+    """A rule list whose MATCH refers to any item of the layout: itself, an earlier one, a later one. `fitting`: the
+    (kind, name) references that record the same artifacts (so that the list passes), chosen most of the time."""
+    rules = []
+    if rng.random() < 0.2:
+        rules.append(["ALLOW", rng.choice(["nothing*", "zzz"])])
+    if fitting and rng.random() < 0.85:
+        kind, name = rng.choice(list(fitting))
+        rules.append(["MATCH", "*", "WITH", kind, "FROM", name])
+    elif names:
+        rules.append(["MATCH", rng.choice(["*", "*", "sub/*", "foo"]), "WITH", rng.choice(["MATERIALS", "PRODUCTS"]), "FROM", rng.choice(names)])
+    rules += rng.choice([[["DISALLOW", "*"]], [["DISALLOW", "*"]], [["DISALLOW", "*"]], [["ALLOW", "*"]], []])
+    return rules
+
+
+def pipeline_case(rng, res):
+    """The rules as a whole verification applies them: the rule lists of every step are evaluated against the links of
+    *all* steps, those of every inspection against the links of all steps and all inspections - whatever the position
+    of the referenced item in the layout (before, after, itself). Honest, correctly signed single-functionary chains;
+    the expected verdict is the documented semantics evaluated on the generator's ground truth."""
+    from harness import scen, vcommon, world as W
+    root = scen.new_root()
+    try:
+        ch = scen.gen_chain(rng, root, n_steps=rng.choice([1, 2, 3]), n_insp=rng.choice([1, 2, 2, 3]), thresholds=(1,), max_funcs=1)
+        step_names = [s_["name"] for s_ in ch.steps]
+        insp_names = [x["name"] for x in ch.inspections]
+        for k, s_ in enumerate(ch.steps):
+            fit_m = [("MATERIALS", s_["name"])] + ([("PRODUCTS", step_names[k - 1])] if k else [])
+            fit_p = [("PRODUCTS", s_["name"])] + ([("MATERIALS", step_names[k + 1])] * 3 if k + 1 < len(step_names) else [])
+            s_["rules"] = (gen_xrules(rng, step_names + insp_names[:1], fit_m), gen_xrules(rng, step_names, fit_p))
+        for k, x in enumerate(ch.inspections):
+            # every inspection records the final product; so does the last step as its products
+            fit = [(kd, n_) for n_ in insp_names[k + 1:] for kd in ("MATERIALS", "PRODUCTS")] * 3 + \
+                  [(kd, n_) for n_ in insp_names[:k + 1] for kd in ("MATERIALS", "PRODUCTS")] + [("PRODUCTS", step_names[-1])]
+            x["rules_m"] = gen_xrules(rng, step_names + insp_names, fit)
+            x["rules_p"] = gen_xrules(rng, insp_names + step_names[-1:], fit)
+        as_list = lambda d: [[p_, sorted(h.items())] for p_, h in sorted(d.items())]
+        step_links = [[s_["name"], {"materials": as_list(s_["materials"]), "products": as_list(s_["products"])}] for s_ in ch.steps]
+        recording = W.product_recording(ch.final)
+        insp_links = [[x["name"], {"materials": recording, "products": recording}] for x in ch.inspections]
+        expected = True
+        why = None
+        for kind, items, links in (("step", ch.steps, step_links), ("inspection", ch.inspections, step_links + insp_links)):
+            for it in items:
+                rm, rp = it["rules"] if kind == "step" else (it["rules_m"], it["rules_p"])
+                for typ, rules in (("materials", rm), ("products", rp)):
+                    o = oracle_item_rules({"name": it["name"], "type": typ, "rules": rules, "links": links})
+                    if o is not None and "err" in o and expected:
+                        expected, why = False, "%s %s: %s rules %r" % (kind, it["name"], typ, rules)
+        scn = scen.build(ch, root, rng)
+        desc = {"family": "pipeline", "steps": step_names, "inspections": insp_names,
+                "rules": {it["name"]: (it.get("rules") or (it["rules_m"], it["rules_p"])) for it in ch.steps + ch.inspections},
+                "expected_accept": expected}
+        i, _m, _agreed = vcommon.run_case(scn, desc, res, True)
+        res.count("family_pipeline")
+        res.count("pipeline_expected_%s" % expected)
+        acc = vcommon.accepted(i)
+        if i.get("load") == "ok" and acc != expected:
+            err = (i.get("result") or {}).get("err")
+            if acc or err == "RuleVerificationError":
+                vcommon.oracle_fail(res, scn, desc, ("verification passed although a rule fails on the recorded artifacts (%s)" % why) if acc else
+                                    "verification failed with a rule error although no rule fails on the recorded artifacts of the items the rules refer to", i)
+    finally:
+        scen.drop_root(root)
+
+
+def shard_pipeline(seed, idx, n):
+    res = core.Result()
+    rng = core.rng_for(seed, "c03", "pipeline", idx)
+    for _ in range(n):
+        pipeline_case(rng, res)
+    return res
+
+
 CORPUS = [
     # '-' binds tighter than '&' in verify_create_rule; MATCH with prefix; KeyError quirk
     {"name": "item", "type": "products", "odd": False,
@@ -385,6 +459,8 @@ def run(tier, seed):
         shards.append((shard_glob_random, (seed, i, ng)))
         shards.append((shard_rules, (seed, i, nr)))
     shards.append((shard_corpus, ()))
+    for i in range(8):
+        shards.append((shard_pipeline, (seed, i, 6 if tier == "quick" else 120)))
     res = core.parallel(_dispatch, shards)
     res.notes.append("glob: exhaustive for patterns of length <= %d over %r x names of length <= 3 over %r" % (
         maxlen, PSYM, NSYM))
@@ -406,6 +482,9 @@ def replay(case):
     if case.get("op") == "glob":
         m = d.call({"op": "glob", "pat": case["pat"], "names": case["names"]})
         return {"impl": [fnmatch.fnmatchcase(n, case["pat"]) for n in case["names"]], "model": m}
+    if "world" not in case:
+        from harness import vcommon
+        return vcommon.replay(case)
     c = case["world"]
     m = d.call({"op": "item_rules", "name": c["name"], "type": c["type"], "rules": c["rules"], "links": c["links"]})
     return {"impl": impl_observe(c), "model": norm_model(m), "documented_semantics_oracle": oracle_item_rules(c)}
